@@ -1035,7 +1035,7 @@ func (r *runner) stalledMain(p stalledT, st map[string]int64) {
 			taker = r.openLimited(0)
 			taker.ver, taker.ack = p.Ver, "all"
 			taker.sendPk(&refmqtt.Packet{Type: refmqtt.CONNECT, ProtocolName: "MQTT", Level: p.Ver, CleanStart: p.Clean, ClientID: id, KeepAlive: 0})
-			if waitFor(taker, "connack", 3, 2*time.Second) {
+			if waitFor(taker, "connack", 3, 500*time.Millisecond) {
 				st["stalled:taker-connected"]++
 			}
 		}
